@@ -60,6 +60,20 @@ func TestC14Elections(t *testing.T) {
 			}
 		}
 		curSpec = spec
+		scripted := spec.WithRuntime && rapid.Bool().Draw(t, "scriptedRounds")
+		if scripted {
+			// epochs long enough for several runtime rounds (the liveness evaluation needs finalized rounds)
+			if iv := int64(rapid.SampledFrom([]int{6, 8, 12}).Draw(t, "rtEpochInterval")); iv > spec.EpochInterval {
+				spec.EpochInterval = iv
+			}
+			// committees with several workers: every node computes, primary group of 2-3
+			spec.AllCompute(uint16(rapid.IntRange(2, 3).Draw(t, "rtGroup2")), uint16(rapid.IntRange(1, 2).Draw(t, "rtBackup2")))
+			if spec.RtMinLivePct == 0 {
+				spec.RtMinLivePct, spec.RtMinLiveEval = 100, 1
+				spec.RtMaxLiveFail = uint8(rapid.IntRange(0, 2).Draw(t, "rtMaxLiveFail2"))
+				spec.RtLiveFreeze = uint64(rapid.IntRange(0, 2).Draw(t, "rtLiveFreeze2"))
+			}
+		}
 		w0, err := chain.BuildGenesis(spec)
 		if err != nil {
 			ev.Infra(t, "build genesis: %v", err)
@@ -82,11 +96,20 @@ func TestC14Elections(t *testing.T) {
 		}
 		cur = sim
 		defer sim.Close()
+		if scripted {
+			// the committee works through whole rounds (some members late, lying or silent), so that the liveness evaluation
+			// at the next transition suspends or freezes nodes right before the election
+			sim.Profile = "rtheavy"
+			rec.Label("traffic:scripted-rounds")
+		}
 		r := sim.Reps[0]
 		fail := func(sig, format string, args ...any) {
 			ev.Violation(t, sig, "%s; spec=%+v trace=%v", fmt.Sprintf(format, args...), *spec, tail(sim.Trace, 25))
 		}
 		nblocks := rapid.IntRange(12, ev.Pick(40, 120)).Draw(t, "nblocks")
+		if scripted {
+			nblocks += 2 * int(spec.EpochInterval)
+		}
 		var fp []any
 		fp = append(fp, fmt.Sprintf("%+v", *spec))
 		nontrivial := false
@@ -181,6 +204,13 @@ func TestC14Elections(t *testing.T) {
 			byID := map[signature.PublicKey]*node.Node{}
 			for _, n := range nodes {
 				byID[n.ID] = n
+				if st := statuses[n.ID]; st != nil {
+					for _, f := range st.Faults {
+						if f != nil && f.Failures > 0 {
+							rec.Label("node-with-liveness-failures-at-election")
+						}
+					}
+				}
 			}
 			stakeOK := func(ent signature.PublicKey) bool {
 				acct := accounts[staking.NewAddress(ent)]
@@ -198,6 +228,7 @@ func TestC14Elections(t *testing.T) {
 				case n.IsExpired(capEpochT(capEpoch)):
 					return false, "expired"
 				case statuses[n.ID] != nil && statuses[n.ID].IsFrozen():
+					rec.Label("candidate-frozen")
 					return false, "frozen"
 				case !n.HasRoles(role):
 					return false, "role"
@@ -352,6 +383,9 @@ func TestC14Elections(t *testing.T) {
 					if ok, why := eligible(n, node.RoleComputeWorker); !ok {
 						fail("committee-ineligible", "epoch %d: committee member %s not eligible: %s", capEpoch, m.PublicKey, why)
 					}
+					if st := statuses[n.ID]; st != nil && st.IsSuspended(rt.ID, capEpochT(capEpoch)) {
+						fail("committee-ineligible", "epoch %d: committee member %s is suspended from the runtime's committees until epoch %d (liveness failures)", capEpoch, m.PublicKey, st.Faults[rt.ID].SuspendedUntil)
+					}
 					ad := activeDeployment(rt, capEpoch)
 					if ad == nil || n.GetRuntime(rt.ID, ad.Version) == nil {
 						fail("committee-ineligible", "epoch %d: committee member %s is not registered for the runtime's active version", capEpoch, m.PublicKey)
@@ -399,6 +433,10 @@ func TestC14Elections(t *testing.T) {
 						if ok, _ := eligible(n, node.RoleComputeWorker); !ok || ad == nil || n.GetRuntime(rt.ID, ad.Version) == nil {
 							continue
 						}
+						if st := statuses[n.ID]; st != nil && st.IsSuspended(rt.ID, capEpochT(capEpoch)) {
+							rec.Label("candidate-suspended-for-liveness")
+							continue
+						}
 						if cs.ValidatorSet != nil && !electedEntities[n.EntityID] {
 							rec.Label(fmt.Sprintf("validator-set-constraint:candidate-excluded,vrf=%v", vrfOn))
 							continue
@@ -438,6 +476,9 @@ func TestC14Elections(t *testing.T) {
 			prevSet = set
 			rec.Label("elections-checked")
 			sim.Logf("h=%d epoch=%d validators=%d eligible-entities=%d ineligible-nodes=%d", b.Height, capEpoch, len(current), len(eligibleEntities), ineligibleSeen)
+		}
+		for k, n := range sim.RoundOutcomes() {
+			rec.LabelN("scripted-"+k, uint64(n))
 		}
 		var sample any
 		if nontrivial && rec.WantSample() {
